@@ -110,3 +110,54 @@ Proof.
     right. unfold access_len. cbn [snd].
     destruct (Hreg _ Hin) as [Hz|Hle]; unfold region_len in *; cbn [fst snd] in *; lia.
 Qed.
+
+(* ---- conversions to uint64 ---------------------------------------------------------------------------- *)
+(* RETURNDATACOPY: when the code's bound check passes, the slice returnData[offset : offset+length] is inside
+   the return data and offset+length is below 2^64 (the uint64 conversions are the identity).  [len < 2^64] is
+   what the interpreter has established before execute runs: memoryReturnDataCopy = calcMemSize64(_, length)
+   reports an overflow for any longer length (see region_size_covers). *)
+Lemma retdata_guard_sound rds off len :
+  0 <= off -> 0 <= len < U64 -> 0 <= rds ->
+  retdata_guard rds off len = true -> off + len <= rds /\ off < U64 /\ off + len < U64.
+Proof.
+  unfold retdata_guard. intros Ho Hl Hr H.
+  apply andb_prop in H. destruct H as [H1 H2]. apply andb_prop in H2. destruct H2 as [H2 H3].
+  apply Z.ltb_lt in H1. apply Z.ltb_lt in H2. apply Z.leb_le in H3.
+  assert (HU := U64_val). rewrite HU in *.
+  assert (Hsm : (off + len) mod W256 = off + len).
+  { apply Z.mod_small. split; [lia|]. assert (W256 = 2 ^ 256) by reflexivity.
+    assert (2 ^ 65 < 2 ^ 256) by (apply Z.pow_lt_mono_r; lia). change (2 ^ 65) with 36893488147419103232 in *. lia. }
+  rewrite Hsm in *. lia.
+Qed.
+
+(* computing the end in uint64 instead would accept a range that is not inside the return data *)
+Lemma retdata_guard_wrap64_refuted :
+  retdata_guard_wrap64 0 (2 ^ 64 - 1) 1 = true /\ retdata_guard 0 (2 ^ 64 - 1) 1 = false.
+Proof. split; vm_compute; reflexivity. Qed.
+
+(* every offset and length an execute function converts with Uint64() for a memory access is below 2^64
+   once the interpreter has charged for the operation: the conversions lose nothing *)
+Section Fits.
+  Context {W : Type}.
+  Variable cfg : config.
+  Variable orc : oracle W.
+  Hypothesis Hwf : wf_table (c_tab cfg) = true.
+
+  Theorem access_fits_u64 env fr w opc e fr1 cgt x r :
+    inv fr -> charge cfg orc env fr w = inr (opc, e, fr1, cgt) ->
+    exec_info (e_exec e) opc = Some x -> In r (x_mem x) ->
+    (match snd r with LConst n => 0 <= n < U64 | LArg _ => True end) ->
+    region_len (f_stk fr) r = 0 \/
+    (sget (f_stk fr) (fst r) < U64 /\ region_len (f_stk fr) r < U64 /\ sget (f_stk fr) (fst r) + region_len (f_stk fr) r < U64).
+  Proof.
+    intros Hinv Hch Hex Hin Hc.
+    destruct (access_in_bounds cfg orc Hwf _ _ _ _ _ _ _ _ _ Hinv Hch Hex Hin Hc) as [Hz|Hle]; [left; exact Hz|right].
+    destruct (charge_facts cfg orc Hwf _ _ _ _ _ _ _ Hinv Hch) as (_ & _ & _ & x' & k & k' & _ & _ & _ & _ & _ & _ & Hmk' & _).
+    destruct Hmk' as (Hk' & Hml & _).
+    destruct Hinv as (_ & Hs & _).
+    assert (Ho : 0 <= sget (f_stk fr) (fst r)) by (apply sget_nonneg; exact Hs).
+    assert (Hl : 0 <= region_len (f_stk fr) r).
+    { unfold region_len. destruct (snd r); [apply sget_nonneg; exact Hs|lia]. }
+    rewrite U64_val. change (2 ^ 32) with 4294967296 in Hk'. lia.
+  Qed.
+End Fits.
